@@ -727,14 +727,20 @@ def oracle_pools(ops, impl, model):
     """C16: after every seal the builtin pools exist with reserves; liquidity tokens in coins never exceed pool.liqs"""
     out = []
     faucet_minted = set()      # liquidity-token denominations a faucet has minted in this history (K-faucet-liq)
+    legacy_dup = set()         # denominations deposited as a second output inside the legacy window (K-legacy-deposit)
     for i, kind, t, pre, post, st, txs, orc in walk(ops, impl):
         if kind in ("fab", "genesis"):
             faucet_minted = set()
+            legacy_dup = set()
         if kind in ("batch", "block") and post is not None:
             for x in txs:
                 if x is not None and x["kind"] == K_FAUCET:
                     for o in x["outputs"]:
                         faucet_minted.add(o["denom"])
+                # K-legacy-deposit: in the historical window a deposit's second output stays spendable, so whatever
+                # denomination it carries (possibly another pool's liquidity token) is duplicated by a later withdrawal
+                if x is not None and x["kind"] == K_DEP and len(x["outputs"]) > 1 and legacy(int(post["net"]), int(post["h"]), 978392):
+                    legacy_dup.add(x["outputs"][1]["denom"])
         if kind != "seal" or post is None:
             continue
         net, h = int(post["net"]), int(post["h"])
@@ -756,6 +762,7 @@ def oracle_pools(ops, impl, model):
                 if p is None or held[den] > p[3]:
                     out.append({"line": i, "op": " ".join(t)[:600], "opkind": "seal", "pool": kb[-8:],
                                 "faucet_minted": "yes" if den in faucet_minted else "no",
+                                "legacy": "deposit-window" if den in legacy_dup else "no",
                                 "detail": "liquidity tokens held (%d) exceed the pool's recorded liquidity (%s)" % (held[den], None if p is None else p[3])})
     return out
 
@@ -839,7 +846,8 @@ def oracle_settlement(ops, impl, model):
         for (kb, left, right), rtx in reqs_by_pool.items():
             if kb in ("73", ZERO + "016401" + "73"):
                 continue
-            r0 = pp0.get(kb, [0, 0, 0, 0])
+            # a builtin pool that did not exist yet is created with 10^9 on each side before any request is settled
+            r0 = pp0.get(kb, [10 ** 9, 10 ** 9, 0, 0] if kb == "64" else [0, 0, 0, 0])
             r1 = pp1.get(kb)
             if r1 is None:
                 continue
